@@ -17,7 +17,7 @@ window  the admissible positions of the probe token in the other suffix are
 import ast
 
 from .. import AnalysisError
-from ..flow import view_of
+from ..flow import view_of, untag as untag_names
 from ..guards import Conds, Universe, to_formula, f_or, show, show_asg, FALSE
 from ..model import U
 from ..symx import Norm, Unsupported
@@ -123,33 +123,9 @@ def run(ctx):
     whyw = 'the upper end of the admissible window is clamped (`%s`): positions beyond the end of the list were ' \
            'admissible, and _partition can no longer tell' % U(hi)[:80]
     if okw:
-        try:
-            norm = Norm()
-            env_l = gv.expand(lo_core, st2)
-            env_h = gv.expand(hi_core, st2)
-            # the o_l/o_r names have two reaching definitions (1/0 and 0/1): compare the un-expanded form
-            want_lo = norm.visit(parse_expr('%s - o - abs_diff * o_l' % mid_name))
-            want_hi = norm.visit(parse_expr('%s + o + abs_diff * o_r' % mid_name))
-            got_lo, got_hi = norm.visit(lo_core), norm.visit(hi_core)
-            dl, dh = got_lo.diff_const(want_lo), got_hi.diff_const(want_hi)
-            okw = dl is not None and dl <= 0 and dh is not None and dh >= 0
-            whyw = 'the window passed to _partition is [%s, %s]; it must contain [mid - o - D*o_l, mid + o + D*o_r]' % (U(lo)[:60], U(hi)[:60])
-            # o, abs_diff and the o_l/o_r selection
-            defs = {}
-            for n in walk_own(g.node):
-                if isinstance(n, ast.Assign) and isinstance(n.targets[0], ast.Name):
-                    defs.setdefault(n.targets[0].id, []).append(n)
-            o_ok = 'o' in defs and len(defs['o']) == 1 and norm.visit(defs['o'][0].value) == norm.visit(parse_expr('(%s - abs_diff) / 2' % hmax))
-            ad_ok = 'abs_diff' in defs and len(defs['abs_diff']) == 1 and U(defs['abs_diff'][0].value) in ('abs(%s - %s)' % (l_n, r_n), 'abs(%s - %s)' % (r_n, l_n))
-            if okw and not (o_ok and ad_ok):
-                okw = False
-                whyw = 'the slack o = (budget - |size difference|)/2 is computed differently: o=%s, abs_diff=%s' % (
-                    U(defs['o'][0].value) if 'o' in defs else '?', U(defs['abs_diff'][0].value) if 'abs_diff' in defs else '?')
-            if okw:
-                okw, whyw = _selection_ok(g, gv, other, l_n, r_n)
-        except Unsupported as e:
-            okw = False
-            whyw = 'window bounds not recognisable: %s' % e
+        okw, whyw = _window_by_case(g, gv, other, lo_core, hi_core, mid_name, l_n, r_n, hmax)
+        if not okw:
+            whyw = 'the window passed to _partition is [%s, %s]; %s' % (U(lo)[:60], U(hi)[:60], whyw)
     ctx.check('R-SUFFIX/window', g, 'window passed to _partition', okw, whyw, other,
               sample='[%s, %s]' % (U(lo)[:50], U(hi)[:50]))
     # ---------------------------------------------------------------- rejections in _partition
@@ -173,7 +149,7 @@ def run(ctx):
                "is algorithmic and not decided")
 
 
-def _selection_ok(g, gv, pcall, l_n, r_n):
+def _selection_ok(g, gv, pcall, l_n, r_n, name_l='o_l', name_r='o_r'):
     """(o_l, o_r) must be (1, 0) when the left suffix is the shorter one and (0, 1) otherwise - whatever idiom
     computes them (if/else, conditional expression, complement). Decided per path to the _partition call."""
     import copy
@@ -200,7 +176,7 @@ def _selection_ok(g, gv, pcall, l_n, r_n):
             if not compatible:
                 continue
             vals = []
-            for nm in ('o_l', 'o_r'):
+            for nm in (name_l, name_r):
                 e = ps.env.get(nm)
                 if e is None:
                     return False, '%s is not assigned on a path to the _partition call' % nm
@@ -475,3 +451,84 @@ def _check_recursion(ctx, repo, g, gv, pcalls, windowed):
     ctx.check('R-SUFFIX/recursion', g, 'both parts', seen == {'left', 'right'} or not rec,
               'the recursion covers only the %s parts' % sorted(seen), g.node, nontrivial=False)
     ctx.floor('R-SUFFIX/recursion', len(rec), 2, 'recursive estimator calls')
+
+
+def _resolve_case(e, small, case):
+    """conditional expressions on the size comparison resolved for the given case"""
+    import copy
+    from ..guards import to_formula as tf, f_not
+
+    class T(ast.NodeTransformer):
+        def visit_IfExp(s, n):
+            n = s.generic_visit(n)
+            t = tf(n.test)
+            if Universe(int_atoms=lambda a: True).equivalent(t, small) is None:
+                return n.body if case else n.orelse
+            if Universe(int_atoms=lambda a: True).equivalent(t, f_not(small)) is None:
+                return n.orelse if case else n.body
+            return n
+    return T().visit(copy.deepcopy(e))
+
+
+def _window_by_case(g, gv, pcall, lo_core, hi_core, mid_name, l_n, r_n, hmax):
+    """On every path to the windowed _partition call and for both size orders compatible with that path, the bounds -
+    with every local replaced by its value on the path and the size comparison resolved - contain
+    [mid - o - D*o_l, mid + o + D*o_r], o = (budget - D)/2, D = |l - r|, (o_l, o_r) = (1, 0) if l < r else (0, 1).
+    No local name is assumed: whatever computes o, D, o_l, o_r is followed."""
+    from ..paths import enumerate_paths, symexec, _sub
+    from ..guards import to_formula as tf
+    cfg = gv.cfg
+    node = cfg.node_of(gv.stmt_of(pcall))
+    small = tf(parse_expr('%s < %s' % (l_n, r_n)))
+    D = 'abs(%s - %s)' % (l_n, r_n)
+    seen = set()
+    for p in enumerate_paths(cfg, cfg.entry.id, {node.id}, stop={node.id}, limit=4000):
+        ps = symexec(p)
+        for case in (True, False):
+            compatible = True
+            for e, pol, _ in ps.conds:
+                if isinstance(e, ast.Compare) and l_n in U(e) and r_n in U(e) and not any(isinstance(x, ast.Constant) for x in ast.walk(e)):
+                    when_small = Universe(int_atoms=lambda a: True).implies(small, tf(e, pol)) is None
+                    when_not = Universe(int_atoms=lambda a: True).implies(('lit', small[1], False) if small[0] == 'lit' else small, tf(e, pol)) is None
+                    if (case and not when_small) or (not case and not when_not):
+                        compatible = False
+            if not compatible:
+                continue
+            seen.add(case)
+            try:
+                norm = Norm()
+                xl = _resolve_case(untag_names(_sub(lo_core, ps.env)), small, case)
+                xh = _resolve_case(untag_names(_sub(hi_core, ps.env)), small, case)
+                mid_x = _resolve_case(untag_names(_sub(parse_expr(mid_name), ps.env)), small, case)
+                # |l - r| may be spelled either way round
+                dd = norm.visit(parse_expr(D))
+                alt = parse_expr('abs(%s - %s)' % (r_n, l_n))
+                norm.env = dict(norm.env)
+                want_lo = norm.visit(parse_expr('(%s) - (%s - %s) / 2 - %s * %d' % (U(mid_x), hmax, D, D, 1 if case else 0)))
+                want_hi = norm.visit(parse_expr('(%s) + (%s - %s) / 2 + %s * %d' % (U(mid_x), hmax, D, D, 0 if case else 1)))
+                got_lo = norm.visit(_swap_abs(xl, alt, parse_expr(D)))
+                got_hi = norm.visit(_swap_abs(xh, alt, parse_expr(D)))
+            except Unsupported as e:
+                return False, 'window bounds not recognisable: %s' % e
+            dl, dh = got_lo.diff_const(want_lo), got_hi.diff_const(want_hi)
+            if not (dl is not None and dl <= 0 and dh is not None and dh >= 0):
+                return False, 'when %s %s %s it is [%s, %s], which does not contain [mid - o - D*%d, mid + o + D*%d] ' \
+                              '(o = (budget - D)/2, D = |size difference|): the size difference widens the window on the ' \
+                              'shorter side' % (l_n, '<' if case else '>=', r_n, U(xl)[:70], U(xh)[:70], 1 if case else 0, 0 if case else 1)
+    if seen != {True, False}:
+        return False, 'the paths to the _partition call do not cover both size orders'
+    return True, ''
+
+
+def _swap_abs(e, frm, to):
+    """abs(r - l) -> abs(l - r) (same value; the normal form keeps function atoms syntactically)"""
+    import copy
+    ft = U(frm)
+
+    class T(ast.NodeTransformer):
+        def visit_Call(s, n):
+            n = s.generic_visit(n)
+            if U(n) == ft:
+                return copy.deepcopy(to)
+            return n
+    return T().visit(copy.deepcopy(e))
